@@ -27,6 +27,10 @@ def run(ck, tier, seed):
         js = corpus.jobs(maxlines=600 if mode != "fresh" else (60 if q else 600), with_fonttests=False)
         # a font with application-supplied advances caches them per gr_font: shared, reversed and cold must still agree
         js += [dict(j, hinted=1, ppm=13, id=j["id"] + ":hinted") for j in corpus.jobs(maxlines=60, with_fonttests=False)]
+        # lines over each font's own cmap, with glyphs whose ids agree modulo a power of two next to each other, on
+        # hinted fonts (both constructors) and on a plain one
+        for hinted in (1, 2, 0):
+            js += [dict(j, hinted=hinted, ppm=13, id=j["id"] + ":h%d" % hinted) for j in corpus.cmap_text_jobs(tmp, nlines=30 if q else 200, seed=seed)]
         js.append(corpus.pseudo_font_job(tmp))      # duplicate entries in the pseudo-glyph map: the first one wins, always
         for j in js:
             j["opts"] = 0
